@@ -1,4 +1,5 @@
 import importlib.util
+import numpy as np
 
 from PEPit.wrapper import Wrapper
 from PEPit.point import Point
@@ -216,6 +217,10 @@ class CvxpyWrapper(Wrapper):
                 counter += 1
                 counter2 += 1
                 size = constraint_or_psd.shape[0] * constraint_or_psd.shape[1]
+                # Store the dual values of the correspondences between the entries of the matrix and the expressions
+                constraint_or_psd.entries_dual_variable_value = np.array(
+                    [float(dual_value) for dual_value in dual_values_temp[counter:counter + size]]
+                ).reshape(constraint_or_psd.shape)
                 counter += size
             else:
                 raise TypeError("The list of constraints that are sent to CVXPY should contain only"
